@@ -17,6 +17,7 @@ U9 = ("u9_selftest", {})
 U11 = ("u11_text_safety", {})
 U13 = ("u13_mapper_builder", {})
 U14 = ("u14_writer_builder", {})
+U15 = ("u15_classifiers", {})
 U12M = ("u12_text_trace", {"which": "mapper"})
 U12C = ("u12_text_trace", {"which": "cache"})
 U3 = ("u3_interpretation", {})
@@ -35,7 +36,7 @@ BUILDERS_ASSUMED = ("builders: both are verified as wholes -- the loop plumbing 
 PROPS = {
     "C01": {
         "title": "Line-based retrace returns exactly the recorded call stack",
-        "units": [U1F, U2F, U3, U6M, U6W, U13],
+        "units": [U1F, U2F, U3, U6M, U6W, U13, U15],
         "kani": [],
         "technique": "Verus (Z3) function contracts on mechanically extracted reader code: iterate_with_lines/next == head of spec retrace(); remap_frame == exact entry block",
         "level_text": "Deductive proof, for all field values / slice lengths / iterations, that both readers' frame iterators yield exactly "
@@ -45,12 +46,12 @@ PROPS = {
                       "Builders (mapping text -> entries) are assumed, so this is a proof about the reader core, not end to end.",
         "assumed": [BUILDERS_ASSUMED,
                     "independence of line endings / noise lines is not decided here (see C06)",
-                    "extract_class_name (str::split) has the contract `outer_simple_name`; both textual copies are assumed to implement the same function"],
+                    "extract_class_name: in u1/u2 its contract is the abstract `outer_simple_name`; unit u15 proves both textual copies against one concrete specification (after the last `.`, before the first `$`) over the str byte model; the link between `outer_simple_name` and that specification is by name"],
         "design_ref": "DESIGN.md 5/C01",
     },
     "C02": {
         "title": "A cache written from a mapping answers every query exactly like the mapper",
-        "units": [U1F, U2F, U8, U3, U6M, U6W, U13, U14],
+        "units": [U1F, U2F, U8, U3, U6M, U6W, U13, U14, U15],
         "kani": [],
         "technique": "refinement: both readers proved (Verus) against the SAME spec functions retrace/by_params/unanimous through abs_member / abs_mm",
         "level_text": "Both readers are verified against one shared abstract model, so equal abstract entries give equal answers for remap_class, "
@@ -115,14 +116,14 @@ PROPS = {
     },
     "C07": {
         "title": "Text trace remapping rewrites known lines and passes everything else through",
-        "units": [U12M, U12C],
+        "units": [U12M, U12C, U15],
         "kani": [],
         "technique": "Verus contract on remap_stacktrace (both copies) and on format_throwable / format_frames / format_cause: the returned text equals the in-order concatenation of one specified output per input line",
         "level_text": "Proof, for every input text and every mapping, that remap_stacktrace succeeds and returns out_upto(self, lines(input), #lines): per line, the "
                       "remapped throwable (first line / behind `Caused by: `) when its class is known, one four-space-indented line per remapped frame when the frame "
                       "line resolves, the input line otherwise -- nothing dropped, duplicated or reordered; plus the lemma that a mapping knowing none of the classes "
                       "yields the line-normalised input. The line classifiers and the Display impls are abstract functions; std's lines/writeln!/Peekable are assumed contracts.",
-        "assumed": ["parse_throwable / parse_frame are abstract (uninterpreted functions of the line); what counts as a throwable or frame line is not decided here",
+        "assumed": ["in the remapper unit (u12) parse_throwable / parse_frame are abstract functions of the line; WHICH functions they are is pinned in unit u15 over the byte view of contracts/text_model.rs (class = text before the first `: `, message = everything after it; a frame line reassembles to `at class.method(file:line)` with unique delimiters); the link between the two units is by name",
                     "Display impls of Throwable / StackFrame are abstract (display_of); `{}` of a &str prints the string",
                     "contracts/text_trace_model.rs: writeln! into a fmt::Write sink appends prefix + rendering + newline and does not fail; str::lines / Lines::next / Peekable restated over ghost sequences",
                     "remap_frame's iterator yields pending_frames(self, frame) (its relation to the retrace spec is proved in u1/u2); remap_class abstract (u1/u2)",
@@ -229,7 +230,7 @@ PROPS = {
     },
     "C13": {
         "title": "No mapping bytes and no query can make the library panic or overflow",
-        "units": [U2S, U5, U7, U10M, U3, U8, U9, U6M, U6W, U1S, U4, U10C, U11, U13, U14],
+        "units": [U2S, U5, U7, U10M, U3, U8, U9, U6M, U6W, U1S, U4, U10C, U11, U13, U14, U15],
         "kani": ["k3_java_base_types"],
         "technique": "Verus implicit obligations on the mapper reader with NO precondition on entry values",
         "level_text": "The mapper's reader functions are verified with arbitrary usize entry values and any frame: no overflow, no out-of-bounds, termination.",
